@@ -85,6 +85,9 @@ pub struct NetStats {
     pub sync_retransmissions: u64,
     pub forged_delivered: u64,
     pub stray_replies_injected: u64,
+    /// virtual time (ns) at which the last injected fault (scripted fault or outage drop) took effect
+    pub last_fault_t: u64,
+    pub faults_applied_by_kind: [u64; 8],
 }
 
 #[derive(Clone, Debug)]
@@ -237,10 +240,17 @@ impl Net {
         }
         let base = l.base_ms * MS;
         if outage {
+            self.stats.last_fault_t = self.stats.last_fault_t.max(now);
+            self.stats.faults_applied_by_kind[k as usize] += 1;
             self.stats.dropped_outage += 1;
             self.stats.dropped_outage_by_kind[k as usize] += 1;
             self.log(now, me, to, "drop-outage", &w);
             return;
+        }
+        if script.is_some() {
+            self.stats.faults_applied_by_kind[k as usize] += 1;
+            let d = if let Some(Fault::Delay(ms)) = script { ms * MS } else { 0 };
+            self.stats.last_fault_t = self.stats.last_fault_t.max(now + base + d);
         }
         if script == Some(Fault::Drop) {
             self.stats.dropped_script += 1;
